@@ -337,7 +337,8 @@ def check(case):
         sc = max(np.abs(a).max(), 1e-300)
         if not res.expect_small(kind, float(np.abs(b - want).max() / sc) if b.shape == want.shape else float('inf'), TOL,
                                 f"{tag}:{P['scheme']}", f"{kind} of the problem does not {kind} the solution incl. boundary values "
-                                f"({tag}, scheme {P['scheme']}, step {k + 1})"):
+                                f"({tag}, scheme {P['scheme']}, step {k + 1})",
+                                known='K7' if (case.get('demo') == 'K7' and kind == 'shift' and P['scheme'] in ('upwind', 'tvd')) else None):
             break
     return res
 
